@@ -1059,6 +1059,7 @@ def run(ctx):
     r.rule("C01.9", "tree construction dispatcher (insertion mode vs foreign content) and integration-point predicates equal the standard's", floor=120)
     r.rule("C01.10", "quirks / limited-quirks decision equals the standard's for representative DOCTYPE tokens", floor=500)
     r.rule("C01.11", "a delegation whose result is discarded cannot lose a reprocess request", floor=50)
+    r.rule("C01.12", "insertion-mode transitions: each switch is one the standard's steps for that mode and token make; each required switch is reachable", floor=120)
     r.rule("C01.5", "evaluated element tables equal the transcribed WHATWG sets (entries marked either-way excepted)", floor=300)
     ambient(ctx)
     dispatch(ctx)
@@ -1071,6 +1072,8 @@ def run(ctx):
     dispatcher(ctx)
     quirks(ctx)
     return_propagation(ctx)
+    from . import modes
+    modes.run(ctx, "C01.12")
     standard_tables(ctx)
 
 
@@ -1082,6 +1085,16 @@ def thorough(ctx):
 def mutants():
     from ..selftest import TextMutant as T
     return [
+        T("mode-tr-to-cell", "html5parser.py",
+          "        self.tree.insertElement(token)\n        self.parser.phase = self.parser.phases[\"inRow\"]\n",
+          "        self.tree.insertElement(token)\n        self.parser.phase = self.parser.phases[\"inCell\"]\n", "C01.12"),
+        T("mode-afterbody-html-to-frameset", "html5parser.py",
+          "            self.parser.phase = self.parser.phases[\"afterAfterBody\"]", "            self.parser.phase = self.parser.phases[\"afterAfterFrameset\"]", "C01.12"),
+        T("mode-space-after-after-body", "html5parser.py",
+          "    def processSpaceCharacters(self, token):\n        return self.parser.phases[\"inBody\"].processSpaceCharacters(token)\n\n    def processCharacters(self, token):\n        self.parser.parseError(\"expected-eof-but-got-char\")\n        self.parser.phase = self.parser.phases[\"inBody\"]",
+          "    def processSpaceCharacters(self, token):\n        self.parser.phase = self.parser.phases[\"inBody\"]\n        return self.parser.phases[\"inBody\"].processSpaceCharacters(token)\n\n    def processCharacters(self, token):\n        self.parser.parseError(\"expected-eof-but-got-char\")\n        self.parser.phase = self.parser.phases[\"inBody\"]", "C01.12"),
+        T("mode-frameset-end-dropped", "html5parser.py",
+          "            self.parser.phase = self.parser.phases[\"afterFrameset\"]", "            pass", "C01.12"),
         T("random-import", "html5parser.py", "from . import _utils\n", "from . import _utils\nimport random\n", "C01.1"),
         T("set-order", "html5parser.py",
           "        for attr, value in token[\"data\"].items():\n            if attr not in self.tree.openElements[0].attributes:",
